@@ -9,6 +9,9 @@ state-graph optimum (tier A) on the whole overlap, in the same run.
 from fractions import Fraction
 from functools import lru_cache
 from math import comb
+import sys
+
+sys.setrecursionlimit(20000)
 
 
 # ---------------------------------------------------------------- binomial
